@@ -50,6 +50,11 @@ var switchCmd = &cobra.Command{
 		}
 
 		if createOption != "" {
+			// no commit yet, so there is nothing the new branch can point to
+			if client.Head.Commit == nil {
+				return ErrInvalidHEAD
+			}
+
 			prevBranch := client.Head.Reference
 			if err := client.Refs.AddBranch(client.RootGoitPath, createOption, client.Head.Commit.Hash); err != nil {
 				return fmt.Errorf("fail to create new branch %s: %w", createOption, err)
